@@ -614,6 +614,31 @@ def main():
                              compress=tuple(sc["compress"]) if isinstance(sc["compress"], list) else sc["compress"])
         return mems[L]
 
+    # a FAKE CLOCK for joblib.memory (scenario flag "slow"): every description of a parameter inside the CACHED function
+    # (not its plain twin) takes sc["slow"] fake seconds, so that executions last about / longer than the expiry given
+    # to expires_after; time only moves while a cached function executes
+    FAKE = [0.0]
+    if sc.get("slow"):
+        import joblib.memory as _jm
+        import time as _real_time
+
+        class _Clock(object):
+            def time(self):
+                return _real_time.time() + FAKE[0]
+
+            def __getattr__(self, name):
+                return getattr(_real_time, name)
+        _jm.time = _Clock()
+
+    def D_of(name):
+        if not sc.get("slow") or name == "verifplain":
+            return D
+
+        def D_slow(v):
+            FAKE[0] += sc["slow"]
+            return D(v)
+        return D_slow
+
     def wkey(k, L):
         return k if not L else (k, L)
     ign_of = {}       # wrapper key -> the ignore list the SCENARIO gave it (not what the wrapper believes)
@@ -663,11 +688,11 @@ def main():
                             # the instance is hashed (pickled) as part of the key: its class must be importable
                             mod = types.ModuleType(name)
                             mod.__dict__["_DEFAULTS"] = defaults_ns
-                            mod.__dict__["_D"] = D
+                            mod.__dict__["_D"] = D_of(name)
                             exec(compile(src, fname, "exec"), mod.__dict__)
                             sys.modules[name] = mod
                             return mod.__dict__
-                        ns_ = {"__name__": name, "_DEFAULTS": defaults_ns, "_D": D}
+                        ns_ = {"__name__": name, "_DEFAULTS": defaults_ns, "_D": D_of(name)}
                         exec(compile(src, fname, "exec"), ns_)
                         return ns_
                     if ver.get("kind") == "partial":
@@ -707,7 +732,20 @@ def main():
                         objs[k] = member(ns)
                         plains[k] = member(ns2)
                     else:
-                        ns = load(modname, path)
+                        cpath = path
+                        if ver.get("kind") == "main" and sc.get("cwds"):
+                            # a SCRIPT run with a relative path (python script.py / runpy.run_path) from some working
+                            # directory: co_filename is relative; another session uses another cwd / spelling
+                            sp = sc["cwds"][job.get("segment", 0) % len(sc["cwds"])]
+                            base_ = os.path.basename(moddir.rstrip(os.sep))
+                            cwd_, cpath = {"here": (moddir, ver["path"]),
+                                           "dot": (moddir, os.path.join(".", ver["path"])),
+                                           "parent": (os.path.dirname(moddir.rstrip(os.sep)),
+                                                      os.path.join(base_, ver["path"])),
+                                           "updown": (moddir, os.path.join("..", base_, ver["path"])),
+                                           "abs": (moddir, path)}[sp]
+                            os.chdir(cwd_)
+                        ns = load(modname, cpath)
                         ns2 = load("verifplain", path if path == "<string>" else path + ".plain")
                         objs[k] = ns["g"]
                         plains[k] = ns2["g"]
@@ -893,6 +931,7 @@ def main():
                     if res.get("args_id"):
                         last_entry[0] = (w.func_id, res["args_id"])
                     before = counts[k][0]
+                    res["clock0"] = FAKE[0]
                     try:
                         if kind == "call" and cs.get("via") == "call":
                             out = run_maybe_async(k, w.call(*pos, **kw))[0]      # MemorizedFunc.call: forced execution
@@ -916,6 +955,7 @@ def main():
                         res["o"] = "raise"
                         res["e"] = type(e).__name__
                     res["n"] = counts[k][0] - before
+                    res["clock1"] = FAKE[0]
                     valid[0] = True
                 elif kind in ("get", "clearref") and ev[1] >= len(refs):
                     res["o"] = "skip"     # no such reference (an earlier call_and_shelve raised)
